@@ -80,7 +80,10 @@ def handle : Handler := fun op args impl =>
     let L := lenOf rows
     let z := plus (rows.map fun _ => 0)
     let g := plus (numGapsUnique rows L)
-    let mu := plus (numMutationsUnique rows L alpha)
+    match numMutationsUnique rows L alpha with
+    | none => some ⟨"panic", "na"⟩
+    | some mu =>
+    let mu := plus mu
     some ⟨g ++ " " ++ z ++ " " ++ z ++ " " ++ mu ++ " " ++ z ++ " " ++ z, "na"⟩
   | "refmuts", [alpha, sq, rf] => do
     let alpha ← alpha.toNat?
